@@ -16,6 +16,9 @@ Typing is by C++ declared type: `bool` -> bool, everything else integral -> N.  
 import re
 
 
+LAST_STOP = None
+
+
 class Unsupported(Exception):
     pass
 
@@ -36,12 +39,22 @@ class Ctx:
         self.prefix = False       # prefix mode: the first untranslatable top-level statement becomes the parameter `rest`
         self.osattrs = {}         # OSAttribute locals constructed from a boolean literal: name -> '1' | '0'
         self.depth = 0
+        self.havoc = False
+        self.assigned_locals = set()   # locals (not parameters): their members are not 'caller memory'
+        self.written_derefs = set()
+        self.enumerators = set()  # identifiers that may be translated as uninterpreted enumerator constants (prefix mode)
+        self.opaque = set()       # class-typed locals (ByteString iv, ...): never read by translated code, writes to them are skipped
 
-    def thunk(self, body):
-        return '(fun acc : list (N * N) => %s)' % body if self.eff else '(fun _ : unit => %s)' % body
+    def thunk(self, body, vars=()):
+        # vars: [(identifier, type)] assigned inside the construct the continuation follows: passed explicitly
+        if not vars:
+            return '(fun acc : list (N * N) => %s)' % body if self.eff else '(fun _ : unit => %s)' % body
+        ps = ''.join('(%s : %s) ' % (v, t) for (v, t) in vars)
+        return '(fun %s(acc : list (N * N)) => %s)' % (ps, body) if self.eff else '(fun %s(_ : unit) => %s)' % (ps, body)
 
-    def callk(self, k):
-        return '(%s acc)' % k if self.eff else '(%s tt)' % k
+    def callk(self, k, vars=()):
+        vs = ''.join('%s ' % v for (v, t) in vars)
+        return '(%s %sacc)' % (k, vs) if self.eff else '(%s %stt)' % (k, vs)
 
     def ret(self, v):
         return '(%s, acc)' % v if self.eff else v
@@ -76,6 +89,19 @@ def callee_name(f):
     raise Unsupported('callee ' + repr(f)[:80])
 
 
+def path_name(c, e):
+    """identifier for var / var->f / ((T) var->f)->g ... rooted in a parameter or scalar local; None otherwise"""
+    if e[0] == 'var':
+        return ident(e[1]) if e[1] in c.types and e[1] not in c.assigned_locals else None
+    if e[0] == 'cast':
+        inner = path_name(c, e[2])
+        return None if inner is None else inner + '_as_' + ident(e[1].replace(' *', '').replace('*', '').replace('struct ', '').strip())
+    if e[0] == 'field' and e[1][0] != 'this':
+        inner = path_name(c, e[1])
+        return None if inner is None else inner + '_' + ident(e[2].split('::')[-1])
+    return None
+
+
 def as_bool(c, e):
     """(term, ) of type bool"""
     t, ty = tr_e(c, e)
@@ -106,6 +132,15 @@ def tr_e(c, e):
         if n in c.consts:
             return ('%d' % c.consts[n], 'N')
         raise Unsupported('free variable ' + n)
+    if k == 'enumconst':
+        n = e[1]
+        if n in c.consts:
+            return ('%d' % c.consts[n], 'N')
+        if c.havoc:
+            # an enumerator of a library-internal enum (SymAlgo::AES, AsymMech::RSA_PKCS, ...): an uninterpreted constant
+            c.extern('enum_' + ident(n), 'N')
+            return ('enum_' + ident(n), 'N')
+        raise Unsupported('enumerator ' + n)
     if k == 'field' and e[1][0] == 'this':
         n = e[2].split('::')[-1]
         ty = c.extern_types.get(n, 'N')
@@ -117,6 +152,14 @@ def tr_e(c, e):
         ty = c.extern_types.get(nm, 'N')
         c.extern(nm, ty)
         return (nm, ty)
+    if k == 'field' and c.havoc:
+        # a member read through casts / nested members of a parameter (CK_GCM_PARAMS_PTR(pMechanism->pParameter)->ulTagBits):
+        # caller memory the function only consults: an uninterpreted value named by its access path
+        pn = path_name(c, e)
+        if pn is not None:
+            ty = c.extern_types.get(pn, 'N')
+            c.extern(pn, ty)
+            return (pn, ty)
     if k == 'cast':
         t, ty = tr_e(c, e[2])
         if e[1] in BOOL_TYPES and ty == 'N':
@@ -127,6 +170,8 @@ def tr_e(c, e):
         while inner[0] == 'cast':
             inner = inner[2]
         if inner[0] == 'var':
+            if inner[1] in c.written_derefs:
+                raise Unsupported('read of *%s after it was written' % inner[1])
             nm = 'deref_' + ident(inner[1])
             c.extern(nm, 'N')
             return (nm, 'N')
@@ -236,6 +281,81 @@ def havoc_call(c, s):
     return out
 
 
+OPAQUE_TYPES = ('ByteString', 'std::string', 'std::basic_string<char>')
+
+
+def is_opaque_type(ty):
+    ty = ty.replace('const ', '')
+    return ty in OPAQUE_TYPES or ty.endswith('_PARAMS') or bool(re.search(r'\[\d*\]$', ty))
+
+
+def mentions(e, pred):
+    if isinstance(e, tuple):
+        if pred(e):
+            return True
+        return any(mentions(x, pred) for x in e[1:])
+    if isinstance(e, list):
+        return any(mentions(x, pred) for x in e)
+    return False
+
+
+def is_cleanup(e):
+    """recycle / delete calls on error paths: no effect on anything the translated code reads"""
+    if e[0] == 'call':
+        f = e[1]
+        if f[0] == 'field' and f[2].split('::')[-1].startswith('recycle'):
+            return True
+        if f[0] == 'var' and f[1] == 'delete':
+            return True
+    return False
+
+
+def writes_only_opaque(c, e):
+    """a statement whose only effect is on a class-typed local that translated code never reads: iv.resize(n),
+    memcpy(&iv[0], src, n), aad = ByteString(...)"""
+    if e[0] == 'call':
+        f = e[1]
+        if f[0] == 'field' and f[1][0] == 'var' and f[1][1] in c.opaque:
+            return not mentions(e[2], lambda x: x[0] == 'refarg')
+        if f[0] == 'var' and f[1] in ('memcpy', 'memset') and e[2]:
+            return mentions(e[2][0], lambda x: x[0] == 'var' and x[1] in c.opaque) and not mentions(e[2][0], lambda x: x[0] == 'var' and x[1] in c.types)
+    if e[0] == 'bin' and e[1] in ('=', 'op=') and e[2][0] == 'field' and e[2][1][0] == 'var' and e[2][1][1] in c.opaque:
+        return not mentions(e[3], lambda x: x[0] == 'refarg')
+    if e[0] == 'bin' and e[1] in ('=', 'op=', '+=', 'op+=') and e[2][0] == 'var' and e[2][1] in c.opaque:
+        return not mentions(e[3], lambda x: x[0] == 'refarg')
+    return False
+
+
+def havoc_scalar(c, s):
+    """`x = <expression the fragment cannot express>` for a scalar local x: x becomes a fresh, universally quantified
+    value.  Not for right-hand sides that can write other locals (reference or address-of arguments)."""
+    if s[0] == 'expr':
+        e = s[1]
+        if not (e[0] == 'bin' and e[1] == '=' and e[2][0] == 'var' and e[2][1] in c.types):
+            return None
+        target, rhs, ty = e[2][1], e[3], c.types[e[2][1]]
+    else:
+        if s[3] is None or is_opaque_type(s[2]):
+            return None
+        target, rhs = s[1], s[3]
+        ty = 'bool' if s[2] in BOOL_TYPES else 'N'
+    if rhs[0] == 'call' and rhs[1][0] == 'var' and rhs[1][1] in HAVOC_CALLEES:
+        return None
+    saved_ext = list(c.externs)
+    try:
+        tr_e(c, rhs)
+        return None                  # translatable: the ordinary path handles it
+    except Unsupported:
+        c.externs = saved_ext
+    if mentions(rhs, lambda x: x[0] == 'refarg' or (x[0] == 'un' and x[1] == '&' and not (x[2][0] == 'var' and x[2][1] in c.opaque))):
+        return None
+    c.fresh += 1
+    p = 'hv%d_%s' % (c.fresh, ident(target))
+    c.extern(p, ty)
+    c.types[target] = ty
+    return (ident(target), p)
+
+
 def always_exits(ss):
     """does this statement list always leave by return (never fall through / break)?"""
     for s in ss:
@@ -291,6 +411,23 @@ def tr_s_inner(c, ss, k_fall, k_break):
             eff = '(18446744073709551614, %s)' % as_N(c, e[3])
         if eff is not None:
             return '(let acc := %s :: acc in %s)' % (eff, tr_s(c, rest, k_fall, k_break))
+    if c.havoc and k == 'decl' and is_opaque_type(s[2]):
+        c.opaque.add(s[1])
+        c.types.pop(s[1], None)
+        return tr_s(c, rest, k_fall, k_break)
+    if c.havoc and k == 'expr' and writes_only_opaque(c, s[1]):
+        return tr_s(c, rest, k_fall, k_break)
+    if c.havoc and k == 'expr' and is_cleanup(s[1]):
+        return tr_s(c, rest, k_fall, k_break)
+    if c.havoc and k == 'expr' and s[1][0] == 'bin' and s[1][1] == '=' and s[1][2][0] == 'un' and s[1][2][1] == '*' and s[1][2][2][0] == 'var' and not c.eff:
+        # *pOut = value: a write to caller memory through an out-pointer; reading it back later ends the prefix
+        as_N(c, s[1][3])
+        c.written_derefs.add(s[1][2][2][1])
+        return tr_s(c, rest, k_fall, k_break)
+    if c.havoc and k in ('expr', 'decl'):
+        hs = havoc_scalar(c, s)
+        if hs is not None:
+            return '(let %s := %s in %s)' % (hs[0], hs[1], tr_s(c, rest, k_fall, k_break))
     if k in ('expr', 'decl'):
         hv = havoc_call(c, s)
         if hv is not None:
@@ -307,6 +444,7 @@ def tr_s_inner(c, ss, k_fall, k_break):
             return '(let %s := %s in %s)' % (ident(e[2][1]), v, tr_s(c, rest, k_fall, k_break))
         raise Unsupported('expression statement ' + repr(e)[:80])
     if k == 'decl':
+        c.assigned_locals.add(s[1])
         if s[3] is None:
             # uninitialised local: only sound if assigned before use; give it no binding (use => Unsupported free variable)
             c.types.pop(s[1], None)
@@ -322,12 +460,13 @@ def tr_s_inner(c, ss, k_fall, k_break):
         t_exit, e_exit = always_exits(s[2]), always_exits(s[3])
         if t_exit and e_exit:
             c.depth += 1
-            r = '(if %s then %s else %s)' % (cond, tr_s(c, s[2], None, k_break), tr_s(c, s[3], None, k_break))
-            c.depth -= 1
+            try:
+                r = '(if %s then %s else %s)' % (cond, tr_s(c, s[2], None, k_break), tr_s(c, s[3], None, k_break))
+            finally:
+                c.depth -= 1
             return r
         assigned = assigned_vars(s[2]) | assigned_vars(s[3])
-        if assigned:
-            raise Unsupported('assignment inside a branch that falls through')
+        kvars = [(ident(v), c.types[v]) for v in sorted(assigned) if v in c.types]
         saved = dict(c.types)
         krest = tr_s(c, rest, k_fall, k_break)
         c.fresh += 1
@@ -335,16 +474,19 @@ def tr_s_inner(c, ss, k_fall, k_break):
         types_after = dict(c.types)
         c.types = dict(saved)
         c.depth += 1
-        a = tr_s(c, s[2], c.callk(kn), k_break)
-        c.types = dict(saved)
-        b = tr_s(c, s[3], c.callk(kn), k_break)
-        c.depth -= 1
+        try:
+            a = tr_s(c, s[2], c.callk(kn, kvars), k_break)
+            c.types = dict(saved)
+            b = tr_s(c, s[3], c.callk(kn, kvars), k_break)
+        finally:
+            c.depth -= 1
         c.types = types_after
-        return '(let %s := %s in if %s then %s else %s)' % (kn, c.thunk(krest), cond, a, b)
+        return '(let %s := %s in if %s then %s else %s)' % (kn, c.thunk(krest, kvars), cond, a, b)
     if k == 'switch':
         v = as_N(c, s[1])
         body = s[2]
         saved = dict(c.types)
+        kvars = [(ident(x), c.types[x]) for x in sorted(assigned_vars(body)) if x in c.types]
         krest = tr_s(c, rest, k_fall, k_break)
         c.fresh += 1
         kn = 'k%d' % c.fresh
@@ -374,11 +516,13 @@ def tr_s_inner(c, ss, k_fall, k_break):
             code = [x for x in body[start:] if x[0] not in ('case', 'default')]
             c.types = dict(saved)
             c.depth += 1
-            r = tr_s(c, code, c.callk(kn), c.callk(kn))
-            c.depth -= 1
+            try:
+                r = tr_s(c, code, c.callk(kn, kvars), c.callk(kn, kvars))
+            finally:
+                c.depth -= 1
             return r
         term = None
-        dflt_term = c.callk(kn)
+        dflt_term = c.callk(kn, kvars)
         for (labels, start, isd) in groups:
             if isd:
                 dflt_term = seg(start)
@@ -389,7 +533,7 @@ def tr_s_inner(c, ss, k_fall, k_break):
             test = ' || '.join('(%s =? %d)' % (vn, l) for l in labels)
             term = '(if %s then %s else %s)' % (test, seg(start), term)
         c.types = dict(saved)
-        return '(let %s := %s in let %s := %s in %s)' % (kn, c.thunk(krest), vn, v, term)
+        return '(let %s := %s in let %s := %s in %s)' % (kn, c.thunk(krest, kvars), vn, v, term)
     raise Unsupported('statement ' + str(k))
 
 
@@ -401,21 +545,24 @@ def tr_s(c, ss, k_fall, k_break):
         try:
             return tr_s_inner(c, ss, k_fall, k_break)
         except Unsupported as e:
-            c.types, c.externs, c.fresh = saved_types, saved_ext, saved_fresh
+            c.types, c.externs, c.fresh = dict(saved_types), list(saved_ext), saved_fresh
             # translate only the head statement to see whether it is the culprit
             try:
                 c.prefix = False
                 c.depth += 1
                 tr_s_inner(c, [ss[0]], 'DUMMY', k_break)
                 head_ok = True
-            except Unsupported:
+            except Unsupported as e2:
                 head_ok = False
+                why = str(e2)
             finally:
                 c.depth -= 1
                 c.prefix = True
                 c.types, c.externs, c.fresh = dict(saved_types), list(saved_ext), saved_fresh
             if not head_ok:
                 c.stopped_at = repr(ss[0])[:100]
+                global LAST_STOP
+                LAST_STOP = '[' + why + '] ' + repr(ss[0])[:200]
                 c.extern('zz_rest', 'R')
                 return 'zz_rest'
             raise
@@ -436,10 +583,17 @@ def assigned_vars(ss):
     return out
 
 
-def translate(name, params, ptypes, ret_type, body, consts, extern_types=None, drop_params=(), eff=False, prefix=False):
+def _reset_stop():
+    global LAST_STOP
+    LAST_STOP = None
+
+
+def translate(name, params, ptypes, ret_type, body, consts, extern_types=None, drop_params=(), eff=False, prefix=False, havoc=False):
     """-> Coq source of `Definition gen_<name> ...`.  params/ptypes from the C++ declaration."""
+    _reset_stop()
     c = Ctx(name, consts, ret_type in BOOL_TYPES, extern_types)
     c.eff, c.prefix = eff, prefix
+    c.havoc = havoc
     plist = []
     for p, t in zip(params, ptypes):
         if p in drop_params or p == '_' or not p:
